@@ -266,6 +266,10 @@ TARGETS = [
     ("annotated > y", "ok"),           # annotations refer to a local of the enclosing function
     ("generic > y", "ok"),             # annotations refer to a type parameter (def generic[T])
     ("len > x", "type-error"),
+    # call paths whose inner function cannot be instrumented: refused, and the outer function is left alone
+    ("plain > lam > x", "type-error"),
+    ("plain > len > x", "type-error"),
+    ("plain(y) > nosrc > x", "type-error"),
     ("NoInit > x", "type-error"),
     ("n > x", "type-error"),
     ("lst.append > x", "type-error"),
@@ -287,6 +291,7 @@ def check_targets(part):
 
     for sel, exp in TARGETS:
         ns = world.make_module(TARGET_SRC)
+        plain_code = ns["plain"].__code__
         part["cases"] += 1
         part["evaluations"] += 1
         part["steps"] += 1
@@ -314,7 +319,12 @@ def check_targets(part):
             got, msg = "other:" + type(e).__name__, str(e)
         world.reset_context()
         part["outcomes"]["target:" + got] += 1
-        if got != exp:
+        left = world.clean_state_problems(ns["plain"], plain_code)
+        if left and got == exp:
+            part["violations"].append(violation(
+                PROP, "target-left-traces", {"target": sel}, f"probing({sel!r}) -> {got}, but the function `plain` is left with: " + "; ".join(left)[:300],
+                tags=["target"]))
+        elif got != exp:
             part["violations"].append(violation(
                 PROP, "target:" + exp, {"target": sel}, f"probing({sel!r}) -> {got} {msg[:150]}; expected {exp}",
                 tags=["target"]))
